@@ -41,6 +41,8 @@ func (r *Run) fault(k CallKey) error {
 		return fmt.Errorf("%w at %s", ErrInjected, k)
 	case FaultGroup:
 		return ggql.Errors{fmt.Errorf("%w one at %s", ErrInjected, k), fmt.Errorf("%w two at %s", ErrInjected, k)}
+	case FaultNth:
+		return nil // not a resolver failure: the list accessor fails later
 	case FaultExt:
 		return &ggql.Error{Base: fmt.Errorf("%w ext at %s", ErrInjected, k), Extensions: map[string]interface{}{"code": "E1"}}
 	}
@@ -168,7 +170,16 @@ func (x *rnode) wrap(v interface{}) interface{} {
 
 // anyList is a list representation only the harness AnyResolver understands.
 type anyList struct {
-	items []interface{}
+	items  []interface{}
+	failAt int // Nth(failAt) fails (-1: never)
+}
+
+// NthFailIndex is the element whose accessor fails under a FaultNth plan: the second element, or the only one.
+func NthFailIndex(n int) int {
+	if n > 1 {
+		return 1
+	}
+	return 0
 }
 
 // AnyRes is the root (any) resolver over opaque *Node values.
@@ -194,7 +205,11 @@ func (ar *AnyRes) Resolve(obj interface{}, field *ggql.Field, args map[string]in
 		if err := ar.r.fault(CallKey{to.ID, field.Name}); err != nil {
 			return nil, err
 		}
-		return ar.wrap(fieldValue(to, field.Name, args)), nil
+		w := ar.wrap(fieldValue(to, field.Name, args))
+		if al, ok := w.(*anyList); ok && ar.r.Faults[CallKey{to.ID, field.Name}] == FaultNth {
+			al.failAt = NthFailIndex(len(al.items))
+		}
+		return w, nil
 	}
 	if n := nodeBehind(obj); n != nil {
 		// a reflection struct (or a Resolver object reached although it should have answered itself) under an installed
@@ -245,7 +260,7 @@ func (ar *AnyRes) wrap(v interface{}) interface{} {
 			out[i] = ar.wrap(e)
 		}
 		if ar.car == CarNative {
-			return &anyList{out}
+			return &anyList{out, -1}
 		}
 		return out
 	}
@@ -261,6 +276,9 @@ func (ar *AnyRes) Len(list interface{}) int {
 
 func (ar *AnyRes) Nth(list interface{}, i int) (interface{}, error) {
 	if l, ok := list.(*anyList); ok {
+		if i == l.failAt {
+			return nil, fmt.Errorf("%w: list accessor at %d", ErrInjected, i)
+		}
 		return l.items[i], nil
 	}
 	return nil, fmt.Errorf("not a list: %T", list)
@@ -342,9 +360,21 @@ func (c *Common) Rev(y, x string) (interface{}, error) {
 	return fmt.Sprintf("x=%v,y=%v", x, y), nil
 }
 
-type A struct{ Common }
-type B struct{ Common }
-type C struct{ Common }
+type A struct {
+	Common
+	OnlyA string
+	Buddy *A
+}
+type B struct {
+	Common
+	OnlyB int
+	Buddy *B
+}
+type C struct {
+	Common
+	OnlyC bool
+	Buddy interface{}
+}
 type Query struct {
 	Common
 	A  *A
@@ -457,12 +487,21 @@ func (b *fsBuilder) obj(n *Node) interface{} {
 	case "A":
 		x := &A{}
 		o, c = x, &x.Common
+		b.objs[n] = o
+		x.OnlyA, _ = n.F["onlyA"].(string)
+		x.Buddy, _ = b.obj(nodeOf(n.F["buddy"])).(*A)
 	case "B":
 		x := &B{}
 		o, c = x, &x.Common
+		b.objs[n] = o
+		x.OnlyB, _ = n.F["onlyB"].(int)
+		x.Buddy, _ = b.obj(nodeOf(n.F["buddy"])).(*B)
 	case "C":
 		x := &C{}
 		o, c = x, &x.Common
+		b.objs[n] = o
+		x.OnlyC, _ = n.F["onlyC"].(bool)
+		x.Buddy = b.rep(nodeOf(n.F["buddy"]))
 	case "Query":
 		x := &Query{}
 		o, c = x, &x.Common
